@@ -193,13 +193,15 @@ def repo_hash(extra_files=()):
     return h.hexdigest()
 
 
-def build_impl_driver(comp, sanitize):
-    """compile the component's driver against /repo's current working tree"""
+def build_impl_driver(comp, sanitize, nopeek=False):
+    """compile the component's driver against /repo's current working tree.
+    nopeek: build with -DVS_NO_PEEK (final() does not read private fields): used for the search when a
+    change to the repo renames a field the driver peeks at"""
     os.makedirs(BUILD, exist_ok=True)
-    tag = comp.NAME + ('_san' if sanitize else '')
+    tag = comp.NAME + ('_san' if sanitize else '') + ('_nopeek' if nopeek else '')
     exe = os.path.join(BUILD, tag + '_drv')
     stamp = exe + '.stamp'
-    hv = repo_hash() + ('san' if sanitize else 'plain')
+    hv = repo_hash() + ('san' if sanitize else 'plain') + ('nopeek' if nopeek else '')
     with BuildLock():
         if os.path.exists(exe) and os.path.exists(stamp) and open(stamp).read() == hv:
             return exe, 'cached (content hash of /repo/gmlc + harness unchanged)'
@@ -207,6 +209,8 @@ def build_impl_driver(comp, sanitize):
         if sanitize:
             flags += ' -fsanitize=address,undefined -fno-sanitize-recover=all -fno-omit-frame-pointer'
         flags += ' ' + getattr(comp, 'CXXFLAGS', '')
+        if nopeek:
+            flags += ' -DVS_NO_PEEK'
         rc, out, dt = sh('g++ %s %s -o %s' % (flags, os.path.join(ROOT, comp.DRIVER), exe), timeout=600)
         if rc != 0:
             if os.path.exists(exe):
